@@ -8,6 +8,7 @@ import NeoModel.Proofs.FlagsBasic
 import NeoModel.Proofs.FlagsTables
 import NeoModel.Proofs.FlagsTablesSrc
 import NeoModel.Proofs.FlagsManifest
+import NeoModel.Proofs.GoFuncs.C16
 import NeoModel.Generated.ManifestConsts
 namespace NeoModel.Flags
 open CallFlags Generated
@@ -341,7 +342,8 @@ open NeoModel.Generated
 theorem manifest_consts :
     ManifestConsts.voidType = voidType ∧ ManifestConsts.signatureLen = 64 ∧ ManifestConsts.uint160Size = 20 ∧
     ManifestConsts.compressedKeyLen = 33 ∧ ManifestConsts.permissionTypes = [0, 1, 2] ∧
-    ManifestConsts.voidType ∈ ManifestConsts.validParamTypes := by decide
+    ManifestConsts.voidType ∈ ManifestConsts.validParamTypes ∧
+    ManifestConsts.maxSerialized = maxSerialized ∧ ManifestConsts.maxItemSize = maxItemSize := by decide
 
 /-- `manifest_item_roundtrip`: for EVERY manifest value whose strings are valid UTF-8, whose parameter / return
 types are valid, whose keys are canonical encodings of decodable keys and whose signatures have 64 bytes (what JSON
@@ -379,6 +381,23 @@ theorem roundtrip_keeps_valid (validTypes : List Nat) (verify : Bytes → Bytes 
   cases hg : m.groups with
   | none => rw [hg] at h6; simp [groupsValid] at h6
   | some gs => rw [hg] at h6; simpa [Man.normalize, hg] using h6
+
+/-- the stack item of the manifest read back from storage is the stack item of the original (so it serialises to
+the same bytes): `compact` is the re-marshalling of `extra`, idempotent on its own output. -/
+theorem toItem_normalize (compact : Bytes → Bytes)
+    (hc : ∀ e, extraItem compact (extraItem compact e) = extraItem compact e) (m : Man) :
+    (m.normalize compact).toItem compact = m.toItem compact := by
+  cases hw : m.trusts.wildcard <;> simp [Man.toItem, Man.normalize, hw, hc]
+
+/-- `roundtrip_keeps_valid` with the size check (`IsValid(hash, true)`, what ContractManagement.deploy / update
+run): item count ≤ MaxSerialized and byte size ≤ MaxSize of the stack item are preserved, because the item is. -/
+theorem roundtrip_keeps_valid_full (validTypes : List Nat) (verify : Bytes → Bytes → Bool) (checkHash checkSize : Bool)
+    (compact : Bytes → Bytes) (hc : ∀ e, extraItem compact (extraItem compact e) = extraItem compact e) (m : Man)
+    (h : m.isValidFull validTypes verify checkHash checkSize compact = none) :
+    (m.normalize compact).isValidFull validTypes verify checkHash checkSize compact = none := by
+  simp only [Man.isValidFull, orElse_none] at h ⊢
+  refine ⟨roundtrip_keeps_valid validTypes verify checkHash compact m h.1, ?_⟩
+  simpa [Man.serializable, toItem_normalize compact hc m] using h.2
 
 /-- a valid manifest has at most one permission per contract descriptor (so "the first matching permission" and
 "any matching permission" could only differ in which method list applies, and there is only one). -/
@@ -445,6 +464,14 @@ def exDec : Dec := ⟨fun _ => true, fun k => if k.length == 33 then some k else
 
 example : exMan.isValid ManifestConsts.validParamTypes (fun _ _ => true) true = none := by decide
 example : exDec.man (exMan.toItem id) = some (exMan.normalize id) := by decide
+-- the item limit: 11 + 6n items for n methods without parameters — 339 methods pass, 340 do not
+def manyMethods (n : Nat) : Man :=
+  { exMan with groups := some [], standards := [], events := [], perms := [], trusts := ⟨some [], false⟩,
+               methods := (List.range n).map (fun (i : Nat) => ⟨[0x6d, UInt8.ofNat (i % 256), UInt8.ofNat (i / 256)], (i : Int), [], 255, false⟩) }
+example : ((manyMethods 339).toItem id).count = 2045 ∧ (manyMethods 339).serializable id = true ∧
+          ((manyMethods 340).toItem id).count = 2051 ∧ (manyMethods 340).serializable id = false := by decide +kernel
+example : (manyMethods 340).isValidFull ManifestConsts.validParamTypes (fun _ _ => true) false true id = some .notSerializable ∧
+          (manyMethods 340).isValidFull ManifestConsts.validParamTypes (fun _ _ => true) false false id = Option.none := by decide +kernel
 example : exMan.WF exDec := by
   refine ⟨rfl, ?_, ?_, ?_, ?_, ?_, ?_⟩ <;> simp [exMan, exDec, exKey, Group.WF, Method.WF, Param.WF, Event.WF, Perm.WF, Desc.WF, ManifestConsts.validParamTypes]
 example : ({ exMan with perms := exMan.perms ++ [(⟨.group (exKey 9), none⟩ : Perm)] } : Man).isValid ManifestConsts.validParamTypes (fun _ _ => true) true
